@@ -21,7 +21,7 @@ the same object.
 
 An object revisions is reachable at a certain time if it is reachable
 from the revision of the root at that time or if it is reachable from
-a backpointer after that time.
+a backpointer or from a record written after that time.
 """
 
 import binascii
@@ -292,6 +292,9 @@ class GC(FileStorageFormatter):
         # non-current revision could refer to objects that were
         # otherwise unreachable at the packtime.
         extra_roots = []
+        # Objects that were garbage at the pack time can be referenced
+        # again by records written after it.
+        future_refs = []
 
         pos = self.packpos
         while pos < self.eof:
@@ -314,6 +317,9 @@ class GC(FileStorageFormatter):
                     else:
                         self.reachable[dh.oid] = dh.back
                         extra_roots.append(dh.back)
+                elif dh.plen:
+                    future_refs.extend(
+                        self.referencesf(self._file.read(dh.plen)))
 
                 pos += dh.recordlen()
 
@@ -327,6 +333,8 @@ class GC(FileStorageFormatter):
         for pos in extra_roots:
             refs = self.findrefs(pos)
             self.findReachableAtPacktime(refs)
+        self.findReachableAtPacktime(
+            [oid for oid in future_refs if oid in self.oid2curpos])
 
     def findrefs(self, pos):
         """Return a list of oids referenced as of packtime."""
